@@ -28,12 +28,13 @@ CLAIMED = {
             'axis is empty is out of domain (numpy.apply_along_axis is undefined there)', 'DESIGN.md section 4 C03'),
     'C04': ('A', 'model_checking',
             'bounded-exhaustive enumeration of all compositions of each dimension into pieces and of ordered file tuples, on the real code',
-            'Every file of the small universe x every dimension x every composition of its length (<=4) into '
-            'consecutive pieces, split by the reference slicer and by the library slicer, stacked through '
-            'file.stack, legacy stack_files and on-disk pncmfopen, must reproduce the original (data, masks, '
+            'Every file of the small universe x every dimension x every composition of its length (<=4 quick / <=5 '
+            'thorough) into consecutive pieces, split by the reference slicer and by the library slicer, stacked through '
+            'file.stack (in-memory and netCDF-backed pieces), legacy stack_files and on-disk pncmfopen, must reproduce the original (data, masks, '
             'dimension lengths and unlimited flags, attributes, variable order); slicing the stacked file at each '
-            'piece extent must reproduce the piece; ordered pairs/triples of distinct files must equal '
-            'numpy.concatenate in argument order.',
+            'piece extent must reproduce the piece; ordered pairs/triples (thorough: quadruples) of distinct files must equal '
+            'numpy.concatenate in argument order; IOAPI files (gridded/boundary/masked/disk, 3-6 start instants, 2-5 steps) '
+            'split along TSTEP into every composition and stacked again must reproduce data, TFLAG and SDATE/STIME/TSTEP.',
             'numpy.concatenate trusted; dimension order not compared; the disk form compares dims/data/masks only',
             'DESIGN.md section 4 C04'),
     'C01': ('B', 'model_checking',
